@@ -155,6 +155,30 @@ func (ex *Executor) havocLoop(st *State, fr *frame, h *ssa.BasicBlock) {
 							st.Cells[p.Cell] = ex.havocLike(st, old, nil, fmt.Sprintf("loop.cell%d", p.Cell))
 						}
 					}
+				} else if ia, ok := x.Addr.(*ssa.IndexAddr); ok {
+					// element store: havoc the backing array of the slice
+					switch b := ex.get(st, fr, ia.X).(type) {
+					case *SymSliceV:
+						if b.Cell != 0 {
+							if cur, ok := st.Cells[b.Cell].(*Term); ok {
+								st.Cells[b.Cell] = ex.Fresh("loop.arr", cur.S)
+							}
+						} else {
+							st.Note("loop body stores into immutable symbolic slice %s", ia.X.Name())
+						}
+					case *SliceV:
+						if av, ok := st.Cells[b.Cell].(*ArrayV); ok && !b.Nil {
+							st.Cells[b.Cell] = ex.havocLike(st, av, nil, "loop.elems")
+						}
+					case *BufV:
+						if cur := ex.bufFull(st, b); cur != nil {
+							nw := ex.Fresh("loop.buf", SStr)
+							st.Fact(Eq(StrLen(nw), StrLen(cur)))
+							ex.bufSetFull(st, b, nw)
+						}
+					default:
+						st.Note("loop body stores through %s (not havocked precisely)", x.Addr.Name())
+					}
 				} else {
 					st.Note("loop body stores through %s (not havocked precisely)", x.Addr.Name())
 				}
